@@ -103,6 +103,39 @@ PROPS = {
              "String column with rows that were never written. Distinct = hash of the decoded history.",
         assumptions=COMMON_ASSUME + ["strings never contain NUL"],
     ),
+    "C03": dict(
+        bin="h_tree", sub="c03", level="exploration",
+        technique="rapidcheck-generated create/delete/link/unlink programs; after every step every container is checked for agreement of count, enumeration, index, name, id and has-lookups, and its order against the previous snapshot",
+        level_text="generated programs of 6-75 API calls (names from a pool with '..', case and blank variants, UTF-8, UUID-shaped names, re-use "
+                   "of deleted names, attempted duplicates; deletes by name, id and handle; reopen inside) over all 13 container kinds; after "
+                   "every step, for every container of the file: count == |enumeration|, enumeration[i] == get(i), ids and names pairwise "
+                   "distinct, get(id) / get(name) return that entity, has(id) / has(name) / has(handle) true, get(count) nothing, vanished "
+                   "members no longer found; survivors keep their relative order and new members follow them; the same after a final reopen",
+        level_note="tag references and attached sources are looked up by id only (their getters are documented as id lookups); the order of a "
+                   "list that was replaced as a whole by a vector setter is not compared for that one step",
+        quick=dict(cases=250, size=400, workers=16, timeout=1800),
+        thorough=dict(cases=5000, size=400, workers=16, timeout=14400),
+        rule="tape -> program (harness/prog.hpp, profile Valid). Non-trivial: at least 3 successful creates, at least one successful delete/"
+             "remove, and a member with a special name ('..', UUID-shaped, case/blank variant, UTF-8, '%', '.') was looked up. Distinct = hash of "
+             "the decoded program.",
+        assumptions=COMMON_ASSUME,
+    ),
+    "C12": dict(
+        bin="h_tree", sub="c12", level="exploration",
+        technique="rapidcheck-generated creation histories over several sessions (ids well-formed, distinct, stable after every step) and generated process schedules with a harness-owned clock (ids of all processes distinct)",
+        level_text="(a) generated API programs with close+reopen steps: after every step every id in the file is a well-formed UUID, ids are "
+                   "pairwise distinct, an entity seen before still has the id it had, and a new entity never receives an id that was used "
+                   "earlier in this file; (b) generated schedules of 2-8 real processes whose start second is a generated value (the harness "
+                   "executable defines time(), so equal / adjacent / distant start seconds are produced at will), created by exec or by fork "
+                   "from a parent that has already created ids; all ids of all processes must be pairwise distinct and well-formed",
+        level_note="distinctness of random ids is probabilistic: the check can show collisions, not their impossibility; only time() is faked",
+        quick=dict(cases=120, size=300, workers=16, timeout=1800),
+        thorough=dict(cases=2500, size=300, workers=16, timeout=14400),
+        rule="tape -> history (profile Valid, reopen steps) or schedule (process count, start seconds, exec or fork, ids per process). Non-"
+             "trivial: history with at least 2 sessions and 3 creates; schedule with at least 2 processes sharing a start second, or forked "
+             "after the parent created ids. Distinct = hash of the decoded case.",
+        assumptions=COMMON_ASSUME + ["only time() is under the harness' control; other entropy sources are the real ones"],
+    ),
     "C08": dict(
         bin="h_tree", sub="c08", level="exploration",
         technique="rapidcheck-generated API programs with invalid arguments; complete observable state (snapshot) compared before/after every call that threw",
@@ -113,8 +146,8 @@ PROPS = {
                    "the whole file (and of the foreign file) must equal the snapshot taken before the call",
         level_note="one step of a program is exactly one mutating API call; a call that does not throw is outside this property; the snapshot "
                    "reads everything through public getters (updated_at excluded)",
-        quick=dict(cases=150, size=400, workers=16, timeout=1800),
-        thorough=dict(cases=4000, size=400, workers=16, timeout=14400),
+        quick=dict(cases=600, size=400, workers=16, timeout=1800),
+        thorough=dict(cases=8000, size=400, workers=16, timeout=14400),
         rule="tape -> program (see harness/prog.hpp, profile Reject). Non-trivial: at least one call was rejected in a state with at least 4 "
              "entities. The evidence lists per rejection class how many rejected calls were checked. Distinct = hash of the decoded program.",
         assumptions=COMMON_ASSUME,
@@ -127,8 +160,8 @@ PROPS = {
                    "at the end the snapshot taken before close() must equal the snapshot after a ReadOnly reopen, after a ReadWrite reopen and "
                    "(40% of the cases) the snapshot printed by a freshly started process",
         level_note="snapshot = every getter of every entity incl. all stored data, ids, created_at, links and order; updated_at excluded",
-        quick=dict(cases=150, size=400, workers=16, timeout=1800),
-        thorough=dict(cases=4000, size=400, workers=16, timeout=14400),
+        quick=dict(cases=600, size=400, workers=16, timeout=1800),
+        thorough=dict(cases=8000, size=400, workers=16, timeout=14400),
         rule="tape -> program (profile Valid). Non-trivial: at least one successful delete/unlink, entities of at least 4 kinds besides the file, "
              "and at least one link alive at the final close. Distinct = hash of the decoded program.",
         assumptions=COMMON_ASSUME,
@@ -141,8 +174,8 @@ PROPS = {
                    "delete the new snapshot must equal the old one with the victim (and its subtree) removed and every link to a removed id "
                    "gone - nothing else may differ - and the handle held from before reports itself invalid",
         level_note="prune is a pure function on the snapshot tree; deleteDimensions has no victim id and is covered by C13",
-        quick=dict(cases=150, size=400, workers=16, timeout=1800),
-        thorough=dict(cases=4000, size=400, workers=16, timeout=14400),
+        quick=dict(cases=600, size=400, workers=16, timeout=1800),
+        thorough=dict(cases=8000, size=400, workers=16, timeout=14400),
         rule="tape -> program (profile Valid). Non-trivial: a victim that was referenced by holders of at least 2 different kinds, or whose "
              "subtree holds at least 3 entities. Distinct = hash of the decoded program.",
         assumptions=COMMON_ASSUME,
